@@ -75,6 +75,7 @@ func spareIntact(k []byte, key string) bool {
 type hres struct {
 	Class refmodel.Class
 	Hits  []*refmodel.Hit // per requested key for reads, nil = miss
+	Exps  []uint32        // GetE: remaining TTL per requested key
 	Err   error
 }
 
@@ -132,7 +133,7 @@ func execHandler(h handlers.Handler, c wire.Cmd, spare int) (res hres, keysIntac
 			}
 		}
 		return res, spareIntact(k, c.Key)
-	case wire.Get:
+	case wire.Get, wire.GetE:
 		req := common.GetRequest{}
 		var ks [][]byte
 		for i, key := range c.Keys {
@@ -142,9 +143,36 @@ func execHandler(h handlers.Handler, c wire.Cmd, spare int) (res hres, keysIntac
 			req.Opaques = append(req.Opaques, uint32(i))
 			req.Quiet = append(req.Quiet, false)
 		}
-		rc, ec := h.Get(req)
 		res.Hits = make([]*refmodel.Hit, len(c.Keys))
 		got := 0
+		if c.Kind == wire.GetE {
+			res.Exps = make([]uint32, len(c.Keys))
+			rc, ec := h.GetE(req)
+			for rc != nil || ec != nil {
+				select {
+				case r, ok := <-rc:
+					if !ok {
+						rc = nil
+						continue
+					}
+					got++
+					if int(r.Opaque) < len(res.Hits) && !r.Miss {
+						res.Hits[r.Opaque] = &refmodel.Hit{Key: string(r.Key), Value: r.Data, Flags: r.Flags}
+						res.Exps[r.Opaque] = r.Exptime
+					}
+				case e, ok := <-ec:
+					if !ok {
+						ec = nil
+						continue
+					}
+					res.Err = e
+				}
+			}
+		}
+		rc, ec := (<-chan common.GetResponse)(nil), (<-chan error)(nil)
+		if c.Kind == wire.Get {
+			rc, ec = h.Get(req)
+		}
 		for rc != nil || ec != nil {
 			select {
 			case r, ok := <-rc:
